@@ -37,12 +37,14 @@ Fixpoint frame (cs : list char) (cur : bytes) (cnt : nat) (lineNum : nat) : list
         else emit (S lineNum) (cur ++ c) (frame rest [] 0 (S lineNum))
   end.
 
-(* readLine's normalisation of a line that is not 94 characters long (lines are
-   never longer than 94 characters): right padding is computed in BYTES *)
+(* readLine's normalisation of a line that is not 94 characters long: right
+   padding to 94 characters (lines longer than 94 characters cannot come out of
+   [frame]; rightPadShortLine reports them as wrong length) *)
 Inductive norm := NLine (line : bytes) | NWrongLength.
 Definition norm_line (line : bytes) : norm :=
-  if (rune_count line =? 94)%nat then NLine line
-  else if (94 <? length line)%nat then NWrongLength
-  else NLine (line ++ repeat sp (94 - length line)).
+  let n := rune_count line in
+  if (n =? 94)%nat then NLine line
+  else if (94 <? n)%nat then NWrongLength
+  else NLine (line ++ repeat sp (94 - n)).
 
 Definition read_lines (text : bytes) : list norm := map (fun p => norm_line (snd p)) (frame (chars text) [] 0 0).
